@@ -12,6 +12,7 @@ mod echoreplay;
 mod logfile;
 mod meta;
 mod node;
+mod nsclient;
 mod ownership;
 mod registry;
 mod seq;
@@ -46,6 +47,7 @@ fn main() {
         ("authz", _) => authz::main_authz(&args[2..]),
         ("replay", "meta") => meta::replay(&args[3..]),
         ("node", "run") => node::main_node(&args[3..]),
+        ("nsclient", _) => nsclient::main_client(&args[2..]),
         _ => Err(anyhow::anyhow!("unknown command {} {}", args[1], args[2])),
     };
     if let Err(e) = r {
